@@ -1,0 +1,38 @@
+//go:build verif
+
+package litefs
+
+// VerifStepHook, when set, is called at the entry of the internal page-write
+// and file-truncate helpers. It is only compiled in with the "verif" build tag.
+var VerifStepHook func(db *DB, kind string, arg uint32, internal bool)
+
+func verifStep(db *DB, kind string, arg uint32, internal bool) {
+	if h := VerifStepHook; h != nil {
+		h(db, kind, arg, internal)
+	}
+}
+
+// VerifOnLockStateChange installs fn as the state-change callback of the
+// database's twelve locks. Must be called before the locks are used.
+func (db *DB) VerifOnLockStateChange(fn func(lockType LockType, prev, next RWMutexState)) {
+	for _, x := range []struct {
+		t  LockType
+		rw *RWMutex
+	}{
+		{LockTypePending, &db.pendingLock},
+		{LockTypeShared, &db.sharedLock},
+		{LockTypeReserved, &db.reservedLock},
+		{LockTypeWrite, &db.writeLock},
+		{LockTypeCkpt, &db.ckptLock},
+		{LockTypeRecover, &db.recoverLock},
+		{LockTypeRead0, &db.read0Lock},
+		{LockTypeRead1, &db.read1Lock},
+		{LockTypeRead2, &db.read2Lock},
+		{LockTypeRead3, &db.read3Lock},
+		{LockTypeRead4, &db.read4Lock},
+		{LockTypeDMS, &db.dmsLock},
+	} {
+		t := x.t
+		x.rw.OnLockStateChange = func(prev, next RWMutexState) { fn(t, prev, next) }
+	}
+}
